@@ -646,10 +646,10 @@ def rule_tt_c02(ctx):
     prog = ctx.prog
     r = RuleResult("R-TT/C02", floor=3)
     f = prog.func("utils.null_condition_binary_check")
-    rv = single_return(f)
-    inst = {"function": f.qualname, "expr": norm(rv) if rv is not None else None}
+    from ..finite import run_function
+    inst = {"function": f.qualname}
     r.instances.append(inst)
-    if rv is None or len(f.params) != 2:
+    if len(f.params) != 2:
         r.undecided.append(inst)
     else:
         a, b = f.params[0].name, f.params[1].name
@@ -657,18 +657,21 @@ def rule_tt_c02(ctx):
         try:
             for na, nb in itertools.product([False, True], repeat=2):
                 A, B = AttrObj(is_null=na, tag="first"), AttrObj(is_null=nb, tag="second")
-                v = ConstEval(prog, f.module, {a: A, b: B}).ev(rv)
+                v = run_function(prog, f, {a: A, b: B})
                 want = A if (nb and not na) else (B if (na and not nb) else (A if (na and nb) else None))
-                if na and nb:
-                    okv = v is A or v is B
-                else:
-                    okv = v is want
+                okv = (v is A or v is B) if (na and nb) else (v is want)
                 inst[f"null={na},{nb}"] = "first" if v is A else ("second" if v is B else repr(v))
                 if not okv:
                     bad.append((na, nb))
+            # two non-null operands that compare equal are still two operands (a ^ a is not a)
+            E1, E2 = AttrObj(is_null=False, tag="same"), AttrObj(is_null=False, tag="same")
+            v = run_function(prog, f, {a: E1, b: E2})
+            inst["equal non-null operands"] = repr(v) if v is None else "an operand"
+            if v is not None:
+                bad.append("equal non-null operands")
             if bad:
                 r.fail(Finding("R-TT/C02", "R-TT|utils.null_condition_binary_check", f"{f.file}:{f.node.lineno}",
-                               f"null_condition_binary_check returns the wrong operand for is_null combinations {bad}: combining with the null condition must give the other operand", []))
+                               f"null_condition_binary_check returns the wrong result for {bad}: combining with the null condition must give the other operand, and two non-null operands (even equal ones) must give None", []))
             else:
                 r.ok()
         except Undecidable:
